@@ -146,6 +146,18 @@ var wrongTypeValues = []string{
 	`"x"`, `1`, `true`, `false`, `[]`, `{}`, `[null]`, `[[]]`, `[{}]`, `{"a":1}`, `[1,2]`, `""`, `0`,
 }
 
+func isNumericText(s string) bool {
+	if s == "" {
+		return false
+	}
+	for _, c := range s {
+		if c < '0' || c > '9' {
+			return false
+		}
+	}
+	return true
+}
+
 // Mutate applies one structural mutation to the tree at a position drawn by rapid and reports it.
 func Mutate(t *rapid.T, root *JV) Mutation {
 	var nodes []node
@@ -159,7 +171,14 @@ func Mutate(t *rapid.T, root *JV) Mutation {
 	case memo.JArr:
 		kinds = append(kinds, "append-null", "append-null", "elem-null", "dup-elem", "empty-array", "append-wrong")
 	case memo.JString:
-		kinds = append(kinds, "byte-field", "byte-field", "invalid-utf8", "long-string")
+		kinds = append(kinds, "byte-field", "byte-field", "invalid-utf8", "long-string", "number-spelling")
+		if isNumericText(n.v.Str) {
+			kinds = append(kinds, "number-spelling", "number-spelling", "number-spelling")
+		}
+	case memo.JRawKind:
+		if isNumericText(n.v.Str) {
+			kinds = append(kinds, "number-spelling", "number-spelling")
+		}
 	}
 	if n.v.Kind == memo.JObj {
 		// a fee info: set the other member of its fee-type oneof as well
@@ -195,6 +214,14 @@ func Mutate(t *rapid.T, root *JV) Mutation {
 			n.replace(JRaw("{}"))
 		} else {
 			n.remove()
+		}
+	case "number-spelling":
+		// another spelling of a number, as a string and (where the text allows) as a bare token
+		sp := NumberSpelling(t, "mut/num")
+		if n.v.Kind == memo.JRawKind && chance(t, "mut/num/raw", 50) {
+			n.replace(JRaw(strings.TrimSpace(sp)))
+		} else {
+			n.replace(JStr(sp))
 		}
 	case "hostile-string":
 		n.replace(JStr(pick(t, "mut/hs", hostileStrings)))
